@@ -279,6 +279,10 @@ func coreScripted() []coreCfg {
 		{Asynch: true, MinT: 100 * ms, MaxT: 0, HasD: true, Scripts: []string{"closeInDetached", "closeInDetached"}, Steps: []string{"dial", "ansok", "drop p1", "adv 100ms", "ansok", "appclose p2", "adv 100ms", "ansok", "adv 1s"}},
 		{HasL: true, MinT: 100 * ms, Steps: []string{"listenerr", "listen", "listen", "listen", "offer", "lclose", "offer"}},
 		{Asynch: true, MinT: 100 * ms, MaxT: 100 * ms, HasD: true, Scripts: []string{"refuse", "dropInAdd"}, Steps: []string{"dial", "ansok", "adv 100ms", "ansok", "adv 100ms", "ansok", "dclose", "drop p3", "adv 1s"}},
+		// the delay has grown over three failed attempts; then a connection comes up that the protocol refuses, one that
+		// the hook closes in Attaching and one the peer drops during the protocol's AddPipe: none of them is a
+		// successful attach, so the delay goes on from where it was (and is back at the start only after a real attach)
+		{Asynch: true, MinT: 10 * ms, MaxT: 10000 * ms, HasD: true, Scripts: []string{"refuse", "closeAttaching", "none"}, Steps: []string{"dial", "ansfail", "adv 1s", "ansfail", "adv 1s", "ansfail", "adv 1s", "ansok", "adv 9ms", "adv 1ms", "adv 1s", "ansok", "adv 9ms", "adv 1ms", "adv 1s", "ansok", "adv 1s", "drop p3", "adv 9ms", "adv 1ms", "adv 1s"}},
 	}
 }
 
